@@ -472,17 +472,19 @@ func (g *caseGen) one() {
 		case 3:
 			g.out("fail sget %s %d %d %s %d %s", hexName(q.name), q.t, q.c, vlib.B(q.cd), g.step(), vlib.B(r.Bool()))
 		}
-	case k < 95:
+	case k < 94:
 		q := g.relatedQ()
 		if r.Bool() {
 			g.out("fail sresetm %s", q)
 		} else {
 			g.out("fail spurge %s %d %d", hexName(q.name), q.t, q.c)
 		}
-	case k < 96:
+	case k < 95:
 		q := g.relatedQ()
 		g.qs = append(g.qs, q)
 		g.out("fail sset %s %s %d", q, vlib.Pick(r, []string{"useful", "nxdomain", "servfail", "refused", "other"}), g.step())
+	case k < 96:
+		g.recovery()
 	case k < 97:
 		g.alias2()
 	case k < 98:
@@ -524,6 +526,63 @@ func (g *caseGen) alsoWire(q qspec, t int64) {
 	if w, ok := wireOfPres(q.name); ok {
 		g.out("fail %slookupw %s %d %d %s %d", g.viaStore(), w, q.t, q.c, vlib.B(q.cd), t)
 	}
+}
+
+// fail -> backoff over -> the probe succeeds -> fail again: the second episode
+// must start at the minimum, for every audience (no ECS, ECS source prefixes)
+// and whatever audience the recovering answer is filed under (no ECS option,
+// SCOPE 0, a narrower / wider / equal SCOPE), at WriteMsg and ServeDNS level.
+func (g *caseGen) recovery() {
+	r := g.r
+	q := g.relatedQ()
+	if _, ok := wireOfPres(q.name); !ok || q.name == "" {
+		q.name = "flaky.example.com."
+	}
+	q.t = vlib.Pick(r, []int{1, 28, 16})
+	q.c = 1
+	q.scope = vlib.Pick(r, []string{"-", "4:cb007100/24", "4:cb007105/24", "4:0a010000/16", "4:0a000000/8", "6:20010db8000000000000000000000000/32", "6:20010db8aaaa00000000000000000001/48"})
+	g.qs = append(g.qs, q)
+	viaServe := r.Chance(2, 3)
+	rs := vlib.Pick(r, []int{-1, 0, 0, 8, 16, 24, 32, 48})
+	fail := func() {
+		out := vlib.Pick(r, []string{"servfail", "servfail", "refused"})
+		switch {
+		case viaServe && q.scope != "-":
+			g.out("fail eserve %s %d %s %d", q, g.t, out, rs)
+		case viaServe:
+			g.out("fail serve %s %d %d %s %s %d %s", hexName(q.name), q.t, q.c, vlib.B(q.cd), vlib.B(r.Bool()), g.t, out)
+		default:
+			g.out("fail write - none %s %d %d %s", q, g.t, r.Intn(3), out)
+		}
+	}
+	succeed := func() {
+		out := vlib.Pick(r, []string{"useful", "useful", "nxdomain"})
+		switch {
+		case viaServe && q.scope != "-":
+			g.out("fail eserve %s %d %s %d", q, g.t, out, rs)
+		case viaServe:
+			g.out("fail serve %s %d %d %s %s %d %s", hexName(q.name), q.t, q.c, vlib.B(q.cd), vlib.B(r.Bool()), g.t, out)
+		default:
+			g.out("fail write - none %s %d 0 %s", q, g.t, out)
+		}
+	}
+	episodes := 1 + r.Intn(2)
+	for e := 0; e < episodes; e++ {
+		fails := 1 + r.Intn(3)
+		for i := 0; i < fails; i++ {
+			fail()
+			if r.Chance(1, 3) {
+				fail() // inside the backoff: answered from the failure cache / idempotent
+			}
+			g.t = lastRetry + i63(r, 3)
+		}
+		succeed()
+		g.out("fail retrykey %s %d", q, g.t)
+		g.out("fail lookup %s %d", q, g.t)
+		g.t += 2*sec + i63(r, g.mx)
+	}
+	fail()
+	g.out("fail lookup %s %d", q, g.t)
 }
 
 // alias questions whose CNAME target leg fails or succeeds (fail alias).
